@@ -71,11 +71,6 @@ structure RingPost (s s' : State F) (T : Int → Int → F) (h w : Nat) (i : Nat
   ring : Ring (s'.fa "inrast") T h w i
   keep : ∀ v ∈ keepVars, s'.ienv v = s.ienv v
 
-theorem exec_setI_lit (fuel : Nat) (v : String) (n : Int) (s : State F) :
-    exec fuel (.setI v (.lit n)) s = { s with ienv := setS s.ienv v n } := by
-  simp [exec, IE.ok, IE.eval]
-
-
 theorem ring_of_rows (inr4 inr0 rast : List F) (h w : Nat) (i : Nat) (pre : PreRing inr0 (terr rast w) h w i)
     (r0 : ∀ c, c < w → inr4.getD c Fl.nan = inr0.getD (w + c) Fl.nan)
     (r1 : ∀ c, c < w → inr4.getD (w + c) Fl.nan = inr0.getD (2 * w + c) Fl.nan)
